@@ -29,11 +29,12 @@ say "building and running the repository test suite with the change ..."
 cmake --build "$WT/_build" >> "$LOG" 2>&1 || { say "LIBRARY DOES NOT BUILD WITH THE CHANGE"; exit 3; }
 ( cd "$WT/_build" && OPENBLAS_NUM_THREADS=1 ctest --test-dir "$WT/_build" -j${CTEST_J:-8} --timeout 3600 > "$WT/ctest.out" 2>&1 )
 SUM=$(grep -E "tests passed|tests failed" "$WT/ctest.out")
-if echo "$SUM" | grep -q "1 tests failed" && grep -q "testmatrix .*aborted" "$WT/ctest.out"; then
-  # testmatrix Test53 draws time-seeded random integers and aborts on a zero (~4% of runs, also on the pinned tree): re-run it once
-  say "testmatrix aborted (known time-seeded flake of Test53?): $(grep -a -m1 "Error Test" "$WT/_build/Testing/Temporary/LastTest.log")"
+if echo "$SUM" | grep -q "1 tests failed" && grep -q -E "test(matrix|numeric) .*aborted" "$WT/ctest.out"; then
+  # testmatrix Test53 draws time-seeded random integers and aborts on a zero (~4% of runs, also on the pinned tree); testnumeric Test3 draws
+  # 10M time-seeded numbers and aborts when one equals the lower bound (~0.2% of runs): re-run the failed program once
+  say "$(grep -o -E "test(matrix|numeric) .*aborted" "$WT/ctest.out" | head -1) (known time-seeded flake?): $(grep -a -m1 -E "Error Test|^ERROR:" "$WT/_build/Testing/Temporary/LastTest.log")"
   ( cd "$WT/_build" && OPENBLAS_NUM_THREADS=1 ctest --test-dir "$WT/_build" --rerun-failed --timeout 1800 > "$WT/ctest2.out" 2>&1 )
-  if grep -q "100% tests passed" "$WT/ctest2.out"; then SUM="100% tests passed, 0 tests failed out of 27 (testmatrix passed on --rerun-failed)"; fi
+  if grep -q "100% tests passed" "$WT/ctest2.out"; then SUM="100% tests passed, 0 tests failed out of 27 (the time-seeded test passed on --rerun-failed)"; fi
 fi
 say "test suite with change: $SUM"
 grep -E "\*\*\*|Failed|Timeout" "$WT/ctest.out" | head -5 >> "$LOG"
